@@ -21,6 +21,7 @@ import (
 	"os/exec"
 	"strconv"
 	"strings"
+	"time"
 
 	"verif/harness/vh"
 )
@@ -51,8 +52,46 @@ func nontrivial(c *hcase) bool {
 	return len(c.Ops) >= 2
 }
 
+// host time zone of this process (child processes of the zone stage set time.Local to a fixed
+// non-UTC zone; the model is zone-free, so every decision must be the same)
+var zoneName string
+var zoneOffset int
+
+var zones = []struct {
+	name string
+	off  int
+}{{"UTC-5", -5 * 3600}, {"UTC+9", 9 * 3600}, {"UTC+13:45", 13*3600 + 45*60}, {"UTC-11", -11 * 3600}}
+
+func setZone(name string, off int) {
+	zoneName, zoneOffset = name, off
+	time.Local = time.FixedZone(name, off)
+}
+
+// reportZone: the history fails in zone `zoneName` and passes under UTC.
+func reportZone(rep *vh.Report, res *caseResult) {
+	replay := map[string]interface{}{"stage": "history", "case": res.c, "zone": map[string]interface{}{"name": zoneName, "offset_s": zoneOffset}}
+	seen := map[string]bool{}
+	add := func(key, sum string) {
+		key += ":depends-on-host-time-zone"
+		if seen[key] {
+			return
+		}
+		seen[key] = true
+		rep.Fail("property", key, fmt.Sprintf("with the host time zone %s (time.Local) and not under UTC: %s", zoneName, sum), replay)
+	}
+	for _, p := range res.pf {
+		add(p.Key, p.Summary)
+	}
+	for _, m := range res.mm {
+		add(m.Key, m.Detail)
+	}
+}
+
 func report(rep *vh.Report, res *caseResult) {
 	replay := map[string]interface{}{"stage": "history", "case": res.c}
+	if zoneName != "" {
+		replay["zone"] = map[string]interface{}{"name": zoneName, "offset_s": zoneOffset}
+	}
 	seen := map[string]bool{}
 	for _, p := range res.pf {
 		if seen[p.Key] {
@@ -183,6 +222,17 @@ func runCases(env *vh.Env, rep *vh.Report, cases []*hcase) {
 				rep.Note("case %d (%s) disagreed once and agreed on re-execution: %v %v", i, c.Gen, res.mm, res.pf)
 				continue
 			}
+			if zoneName != "" {
+				// the same history under UTC in this process
+				saved := time.Local
+				time.Local = time.UTC
+				res3 := evalCase(env, c)
+				time.Local = saved
+				if len(res3.mm) == 0 && len(res3.pf) == 0 {
+					reportZone(rep, res2)
+					continue
+				}
+			}
 			report(rep, res2)
 		}
 		if i%97 == 5 {
@@ -262,8 +312,42 @@ func main() {
 		concChild()
 		return
 	}
-	rep.Rule = "a case is a history (seeded logs directory; logger created at a virtual time; 8-60 operations: log calls over the 12 entry points, clock steps aimed at the rate-limit, one-minute and midnight boundaries, background cycles, retention passes, SetLevel/ApplyConfig, Read over names x end positions x lengths); distinct = distinct canonical history; non-trivial = at least two operations; the concurrent stage counts one case per rotation under load"
+	rep.Rule = "a case is a history (seeded logs directory; logger created at a virtual time; 8-60 operations: log calls over the 12 entry points, clock steps aimed at the rate-limit, one-minute and midnight boundaries, background cycles, retention passes, SetLevel/ApplyConfig, Read over names x end positions x lengths); distinct = distinct canonical history; non-trivial = at least two operations; the concurrent stage counts one case per rotation under load; a reduced set of histories is repeated in child processes whose host time zone (time.Local) is UTC-5, UTC+9, UTC+13:45, UTC-11"
 	seq := 0
+	if os.Getenv("C17_CHILD") == "zone" {
+		k, _ := strconv.Atoi(os.Getenv("C17_CHUNK"))
+		z := zones[k%len(zones)]
+		setZone(z.name, z.off)
+		rng := vh.NewRng(env.Seed*424243 + uint64(k)*31 + 3)
+		seq = 700000000 + k*1000000
+		cases := witnessCases()
+		n := 1
+		if env.Thorough {
+			n = 4
+		}
+		for i := 0; i < 40*n; i++ {
+			cases = append(cases, genRotation(rng, &seq))
+		}
+		for i := 0; i < 35*n; i++ {
+			cases = append(cases, genRetention(rng, &seq))
+		}
+		for i := 0; i < 30*n; i++ {
+			cases = append(cases, genMixed(rng, &seq))
+		}
+		for i := 0; i < 6*n; i++ {
+			cases = append(cases, genRate(rng, &seq))
+		}
+		runCases(env, rep, cases)
+		rep.CountN("zone:"+z.name, len(cases))
+		var hs []string
+		for _, c := range cases {
+			h := sha1.Sum([]byte(z.name + canon(c)))
+			hs = append(hs, hex.EncodeToString(h[:8]))
+		}
+		rep.Extra["canons"] = hs
+		rep.Write(env.Out)
+		return
+	}
 	if os.Getenv("C17_CHILD") == "real" {
 		realClock = true
 		rng := vh.NewRng(env.Seed*7777 + 5)
@@ -312,6 +396,10 @@ func main() {
 			Cases []struct {
 				Stage string `json:"stage"`
 				Case  *hcase `json:"case"`
+				Zone  *struct {
+					Name   string `json:"name"`
+					Offset int    `json:"offset_s"`
+				} `json:"zone"`
 			} `json:"cases"`
 		}
 		if err := json.Unmarshal(b, &rf); err != nil {
@@ -320,6 +408,9 @@ func main() {
 		var cases []*hcase
 		runConc = false
 		for _, x := range rf.Cases {
+			if x.Zone != nil && zoneName == "" {
+				setZone(x.Zone.Name, x.Zone.Offset)
+			}
 			if x.Case != nil {
 				cases = append(cases, x.Case)
 			}
@@ -331,6 +422,7 @@ func main() {
 	} else {
 		runCases(env, rep, genCases(rng, &seq, true))
 		histChildren(env, rep, "real", 1)
+		histChildren(env, rep, "zone", len(zones))
 		if env.Thorough {
 			histChildren(env, rep, "hist", 10)
 		}
